@@ -133,6 +133,7 @@ type FuncVerifier struct {
 	curLit int // ordinal of the literal being verified as a unit (0 = function)
 	closureLits    map[*types.Var]*ast.FuncLit
 	specMode       bool
+	specResSort    Sort
 	ghostTypes     map[string]types.Type
 	loopGhostTypes map[string]types.Type
 	entryParams    map[types.Object]Term
@@ -867,6 +868,9 @@ func (fv *FuncVerifier) walkFields(st *State, env *Env, base Term, bt types.Type
 		if isPtr {
 			fv.oblige(st, env, "S", "nilderef", Not(App(SBool, "=", cur, Null)), site, "field access through non-nil pointer")
 			cur = fv.readField(st, cur, fieldKey(ct, f.Name()), fs)
+			if _, isMap := f.Type().Underlying().(*types.Map); isMap {
+				st.Assume(fv.typeInv(cur, f.Type()))
+			}
 		} else if fv.w.IsStruct(cur.Sort) {
 			cur = fv.w.StructGet(cur, f.Name())
 		} else {
